@@ -2,6 +2,8 @@ package c16
 
 import (
 	"fmt"
+	"math"
+	"math/big"
 	"regexp"
 	"strings"
 
@@ -210,4 +212,210 @@ func execCoerce(x *fw.Ctx, c Case) {
 		x.Cover("grid:returned-though-not-documented")
 	}
 	x.Observe(map[string]any{"source": src, "target": c.Ty, "returned": returned, "documented": documented})
+}
+
+// ---- compound type specifiers as coerce targets ------------------------------------
+//
+// (coerce x '(integer lo hi)), '(double-float lo hi), '(signed-byte n),
+// '(unsigned-byte n), '(vector elt n), '(bit-vector n): the result must be of
+// the requested type, i.e. typep of the head and inside the bounds (inclusive,
+// as in the language definition: slip documents nothing else); a value that is
+// inside the bounds and that the plain head accepts must not be refused.
+
+type cCoerce struct {
+	src  string // the source object
+	spec string // the compound specifier, as source text (quoted by the harness)
+	in   bool   // the converted value lies inside the specifier
+}
+
+var compoundGrid = []cCoerce{
+	{"3", "(integer 0 10)", true}, {"3", "(integer 3 3)", true}, {"3", "(integer 3 *)", true}, {"3", "(integer * 3)", true}, {"3", "(integer 0)", true},
+	{"11", "(integer 0 10)", false}, {"3", "(integer 4 *)", false}, {"-1", "(integer 0 *)", false}, {"3.0d0", "(integer 0 10)", true}, {"#\\A", "(integer 65 65)", true},
+	{"1180591620717411303424", "(integer 0 *)", true}, {"1180591620717411303424", "(integer 1180591620717411303424 *)", true},
+	{"1180591620717411303424", "(integer * 1180591620717411303424)", true}, {"1180591620717411303424", "(integer 0 1180591620717411303423)", false},
+	{"3", "(fixnum 0 3)", true}, {"3", "(fixnum 4 9)", false}, {"3", "(bignum 0 10)", true}, {"3", "(bignum 3 3)", true}, {"3", "(bignum 4 10)", false},
+	{"3", "(float 0 10)", true}, {"3", "(float 3 3)", true}, {"3", "(float 4 *)", false},
+	{"3", "(single-float 0 3)", true}, {"1.5d0", "(single-float 1.5 1.5)", true}, {"3", "(single-float * 2)", false},
+	{"1.5f0", "(double-float 1.5 2)", true}, {"1.5L0", "(double-float 0 1.5)", true}, {"3", "(double-float 0 10)", true}, {"3", "(double-float 3.5 10)", false},
+	{"3", "(long-float 0 10)", true}, {"3", "(long-float 0 3)", true}, {"3", "(long-float 3 4)", true}, {"1.5L0", "(long-float 1.5L0 2)", true}, {"3", "(long-float 4 5)", false},
+	{"1/2", "(rational 0 1)", true}, {"1/2", "(rational 1/2 1)", true}, {"1/2", "(rational 0 1/2)", true}, {"3", "(rational 0 10)", true}, {"1/2", "(rational 1 2)", false},
+	{"1/2", "(ratio 0 1)", true}, {"1/2", "(ratio 1/2 1)", true}, {"0.5d0", "(ratio 0 1/2)", true}, {"1/2", "(ratio 1 2)", false},
+	{"5", "(signed-byte 8)", true}, {"127", "(signed-byte 8)", true}, {"-128", "(signed-byte 8)", true}, {"128", "(signed-byte 8)", false}, {"200", "(signed-byte 8)", false},
+	{"-129", "(signed-byte 8)", false}, {"5", "(signed-byte *)", true}, {"-300", "(signed-byte 16)", true},
+	{"5", "(unsigned-byte 8)", true}, {"255", "(unsigned-byte 8)", true}, {"256", "(unsigned-byte 8)", false}, {"0", "(unsigned-byte 1)", true}, {"2", "(unsigned-byte 1)", false},
+	{"(list 1 2)", "(vector * 2)", true}, {"(list 1 2)", "(vector * *)", true}, {"(list 1 2)", "(vector * 3)", false}, {"\"ab\"", "(vector character 2)", true},
+	{"(vector 1 2 3)", "(vector * 3)", true}, {"nil", "(vector * 0)", true}, {"(list 1 2)", "(vector fixnum 2)", true},
+	{"(list 1 0 1)", "(bit-vector 3)", true}, {"(list 1 0 1)", "(bit-vector 2)", false}, {"#*101", "(bit-vector 3)", true}, {"5", "(bit-vector 3)", true}, {"5", "(bit-vector 4)", false},
+}
+
+// ratOfObj is the exact value of a real number object (harness type switch).
+func ratOfObj(o slip.Object) *big.Rat {
+	switch v := o.(type) {
+	case slip.Fixnum:
+		return new(big.Rat).SetInt64(int64(v))
+	case slip.Octet:
+		return new(big.Rat).SetInt64(int64(v))
+	case slip.Bit:
+		return new(big.Rat).SetInt64(v.Int64())
+	case *slip.Bignum:
+		return new(big.Rat).SetInt((*big.Int)(v))
+	case *slip.Ratio:
+		return new(big.Rat).Set((*big.Rat)(v))
+	case slip.SingleFloat:
+		if math.IsInf(float64(v), 0) || math.IsNaN(float64(v)) {
+			return nil
+		}
+		return new(big.Rat).SetFloat64(float64(v))
+	case slip.DoubleFloat:
+		if math.IsInf(float64(v), 0) || math.IsNaN(float64(v)) {
+			return nil
+		}
+		return new(big.Rat).SetFloat64(float64(v))
+	case *slip.LongFloat:
+		if (*big.Float)(v).IsInf() {
+			return nil
+		}
+		r, _ := (*big.Float)(v).Rat(nil)
+		return r
+	case *slip.SignedByte:
+		return ratOfObj(v.AsFixOrBig())
+	case *slip.UnsignedByte:
+		return ratOfObj(v.AsFixOrBig())
+	}
+	return nil
+}
+
+// inSpec judges a coerce result against the compound specifier (a parsed
+// list): true/false, or judged=false when the harness cannot tell.
+func inSpec(res slip.Object, spec slip.List) (in, judged bool) {
+	head, _ := spec[0].(slip.Symbol)
+	bound := func(i int) (*big.Rat, bool) { // nil = unbounded
+		if len(spec) <= i {
+			return nil, true
+		}
+		if s, ok := spec[i].(slip.Symbol); ok && string(s) == "*" {
+			return nil, true
+		}
+		r := ratOfObj(spec[i])
+		return r, r != nil
+	}
+	switch strings.ToLower(string(head)) {
+	case "integer", "fixnum", "bignum", "float", "single-float", "double-float", "long-float", "rational", "ratio":
+		v := ratOfObj(res)
+		lo, ok1 := bound(1)
+		hi, ok2 := bound(2)
+		if v == nil || !ok1 || !ok2 {
+			return false, false
+		}
+		return (lo == nil || lo.Cmp(v) <= 0) && (hi == nil || v.Cmp(hi) <= 0), true
+	case "signed-byte", "unsigned-byte":
+		v := ratOfObj(res)
+		if v == nil {
+			return false, false
+		}
+		if len(spec) < 2 {
+			return true, true
+		}
+		if s, ok := spec[1].(slip.Symbol); ok && string(s) == "*" {
+			return strings.ToLower(string(head)) == "signed-byte" || 0 <= v.Sign(), true
+		}
+		n, ok := spec[1].(slip.Fixnum)
+		if !ok || n < 1 || 62 < n {
+			return false, false
+		}
+		if strings.ToLower(string(head)) == "unsigned-byte" {
+			return 0 <= v.Sign() && v.Cmp(new(big.Rat).SetInt64(int64(1)<<uint(n))) < 0, true
+		}
+		half := new(big.Rat).SetInt64(int64(1) << uint(n-1))
+		return new(big.Rat).Neg(half).Cmp(v) <= 0 && v.Cmp(half) < 0, true
+	case "vector", "bit-vector":
+		at := 2
+		if strings.ToLower(string(head)) == "bit-vector" {
+			at = 1
+		}
+		length := -1
+		switch v := res.(type) {
+		case *slip.Vector:
+			length = len(v.AsList())
+		case *slip.BitVector:
+			length = int(v.Len)
+		case slip.Octets:
+			length = len(v)
+		case slip.String:
+			length = len([]rune(string(v)))
+		}
+		if length < 0 {
+			return false, false
+		}
+		if len(spec) <= at {
+			return true, true
+		}
+		if s, ok := spec[at].(slip.Symbol); ok && string(s) == "*" {
+			return true, true
+		}
+		n, ok := spec[at].(slip.Fixnum)
+		return ok && int(n) == length, ok
+	}
+	return false, false
+}
+
+func execCompound(x *fw.Ctx, c Case) {
+	if c.I < 0 || len(compoundGrid) <= c.I {
+		x.Trivial()
+		return
+	}
+	g := compoundGrid[c.I]
+	scope := slip.NewScope()
+	obj, err := sl.Eval(scope, g.src)
+	if err != nil {
+		x.Cover("type-object-unbuildable")
+		x.Trivial()
+		return
+	}
+	specObj, err := sl.Eval(scope, "(quote "+g.spec+")")
+	spec, isList := specObj.(slip.List)
+	if err != nil || !isList || len(spec) == 0 {
+		x.Trivial()
+		return
+	}
+	head, _ := spec[0].(slip.Symbol)
+	hd := strings.ToLower(string(head))
+	scope.Let(symX, obj)
+	scope.Let(symTy, spec)
+	x.Cover("compound-head:" + hd)
+	res, cerr := sl.Eval(scope, "(coerce x ty)")
+	if cerr != nil {
+		if cerr.Internal {
+			x.Fail("coerce-compound fail=internal head="+hd, "(coerce %s '%s) => %s", g.src, g.spec, fmtErr(cerr))
+			return
+		}
+		x.Cover("compound:refused")
+		if g.in {
+			// does the plain head accept the object?
+			scope.Let(symTy, slip.Symbol(hd))
+			if _, e := sl.Eval(scope, "(coerce x ty)"); e == nil {
+				x.Fail("coerce-compound fail=refused-in-range head="+hd, "(coerce %s '%s) => %s, although (coerce %s '%s) returns and the value lies inside the bounds", g.src, g.spec, fmtErr(cerr), g.src, hd)
+			}
+		} else {
+			x.Cover("compound:refused-out-of-range")
+		}
+		x.Observe(map[string]any{"source": g.src, "spec": g.spec, "returned": false})
+		return
+	}
+	x.Cover("compound:returned")
+	rs := slip.NewScope()
+	rs.Let(symX, res)
+	got := sl.Kind(res)
+	if !(got == "null" && (hd == "vector")) {
+		if v, e := typepOf(rs, hd); e != nil || !v {
+			x.Fail(fmt.Sprintf("coerce-typep target=%s got=%s", hd, got), "(coerce %s '%s) => %s, a %s, which is not typep %s", g.src, g.spec, sl.Show(res), got, hd)
+		}
+	}
+	if in, judged := inSpec(res, spec); judged {
+		x.Cover("compound:range-judged")
+		if !in {
+			x.Fail("coerce-compound fail=out-of-range head="+hd, "(coerce %s '%s) => %s, which is not of type %s", g.src, g.spec, sl.Show(res), g.spec)
+		}
+	}
+	x.Observe(map[string]any{"source": g.src, "spec": g.spec, "returned": true, "result": sl.Show(res)})
 }
